@@ -270,4 +270,4 @@ def bounds(tier):
     return {"kernel": "domain 2-3 (quick) / up to 4 chars, host 3-4 / up to 6 chars, fully symbolic over {a b . 1 -}",
             "history": "k=2 steps + final query (quick), k=3 (thorough); first step Set-Cookie",
             "hosts": HOSTS, "paths": PATHS, "domain_attr": DOMAINS, "path_attr": CPATHS, "max_age": MAXAGE,
-            "names": ["a", "b"], "schemes": ["http", "https"]}
+            "values": "first Set-Cookie v1, later ones a fresh value or v1 again", "names": ["a", "b"], "schemes": ["http", "https"]}
